@@ -89,6 +89,8 @@ def composite_key(T, defs, seen=()):
         kt = strip(T["ka"])
         if kt["k"] in ("tup", "coll", "map", "cls"):
             return True
+        if kt["k"] == "union" and any(strip(m)["k"] in ("tup", "coll", "map", "cls") for m in kt["xs"]):
+            return True
         return composite_key(T["ka"], defs, seen) or composite_key(T["va"], defs, seen)
     if k == "cls":
         if T["c"] in seen:
@@ -99,6 +101,24 @@ def composite_key(T, defs, seen=()):
             return True
     if k in ("tup", "union"):
         return any(composite_key(x, defs, seen) for x in T["xs"])
+    return False
+
+
+def composite_key_in_union(T, defs, inside=False, seen=()):
+    """Is a composite-key mapping (see composite_key) located inside a union member?  There the member's TypeError
+    is swallowed by the union, which reports ValueError."""
+    k = T["k"]
+    if k == "union":
+        return any(composite_key(m, defs) or composite_key_in_union(m, defs, True, seen) for m in T["xs"])
+    if k == "cls":
+        if T["c"] in seen:
+            return False
+        return any(composite_key_in_union(f[1], defs, inside, seen + (T["c"],)) for f in defs[T["c"]]["fields"])
+    for key in ("a", "ka", "va"):
+        if isinstance(T.get(key), dict) and composite_key_in_union(T[key], defs, inside, seen):
+            return True
+    if k == "tup":
+        return any(composite_key_in_union(x, defs, inside, seen) for x in T["xs"])
     return False
 
 
@@ -165,7 +185,8 @@ def _violations(rejects, events, meta):
         out.append(Violation(
             clause=r["clause"], case={"T": e["T"], "value_id": m[0], "value_repr": m[1]},
             fields={"root_shape": shape(e["T"]), "leaves": sorted(leafkinds(e["v"]))[:6], "raised": raised, "amb": e["amb"],
-                    "union_sig": (union_sigs(e["T"], DEFS[0]) or ["-"])[0], "composite_key": composite_key(e["T"], DEFS[0])},
+                    "union_sig": (union_sigs(e["T"], DEFS[0]) or ["-"])[0], "composite_key": composite_key(e["T"], DEFS[0]),
+                    "composite_key_in_union": composite_key_in_union(e["T"], DEFS[0])},
             msg=f"T={json.dumps(e['T'])[:140]} v={m[1]} w={json.dumps(e['w'])[:120]} r={json.dumps(e['r'])[:160]}"))
     return out, notvalid
 
